@@ -5,6 +5,7 @@ import (
 	"testing"
 
 	"verif/corp"
+	"verif/cs"
 	"verif/eng"
 	"verif/rec"
 	"verif/wv"
@@ -27,14 +28,47 @@ type c02Item struct {
 	K       int    `json:"k"`
 	Mode    int    `json:"mode"`
 	Force   bool   `json:"force"`
-	Wrapper string `json:"wrapper"` // "plain" | "fixed" | "gnark-engine" | "monitor"
+	Wrapper string `json:"wrapper"`           // "plain" | "fixed" | "gnark-engine" | "monitor"
+	Backend string `json:"backend,omitempty"` // "" = evaluation engine; "r1cs" | "scs" = compiled with gnark's real builder and solved
 }
 
 func (it c02Item) key() string {
-	return fmt.Sprintf("%s/k=%d/%s/force=%v/%s", it.Base, it.K, eng.Mode(it.Mode), it.Force, it.Wrapper)
+	k := fmt.Sprintf("%s/k=%d/%s/force=%v/%s", it.Base, it.K, eng.Mode(it.Mode), it.Force, it.Wrapper)
+	if it.Backend != "" {
+		k += "/compiled-" + it.Backend
+	}
+	return k
+}
+
+// c02Compiled compiles the whole wrapper with gnark's real builder for the given proof system and
+// range-check mechanism and solves the honest witness.
+func c02Compiled(it c02Item) (bool, string, map[string]any) {
+	in := wv.Load(it.Base, it.K)
+	kind := cs.R1CS
+	if it.Backend == "scs" {
+		kind = cs.SCS
+	}
+	mech := map[eng.Mode]cs.Mech{eng.ModeCommit: cs.MechCommit, eng.ModePlain: cs.MechForcedBits, eng.ModeNative: cs.MechNative}[eng.Mode(it.Mode)]
+	var tmpl, asg frontend.Circuit
+	if it.Wrapper == "fixed" {
+		tmpl, asg = in.FixedTemplate(), in.FixedAssignment()
+	} else {
+		tmpl, asg = in.PlainTemplate(), in.Circuit()
+	}
+	sys, err := cs.CompileCircuit(kind, mech, tmpl)
+	if err != nil {
+		return false, "compile refused: " + truncate(err.Error(), 300), nil
+	}
+	if err := sys.SolveCircuit(asg); err != nil {
+		return false, "compiled system rejects the honest witness: " + truncate(err.Error(), 300), nil
+	}
+	return true, "", map[string]any{"constraints": sys.CCS.GetNbConstraints(), "mechanism": mech.String()}
 }
 
 func c02Run(it c02Item) (ok bool, desc string, extra map[string]any) {
+	if it.Backend != "" {
+		return c02Compiled(it)
+	}
 	in := wv.Load(it.Base, it.K)
 	opt := eng.Options{Mode: eng.Mode(it.Mode), ForceBitDecomp: it.Force}
 	switch it.Wrapper {
@@ -82,7 +116,7 @@ func c02Run(it c02Item) (ok bool, desc string, extra map[string]any) {
 func TestC02(t *testing.T) {
 	r := rec.New("C02")
 	defer r.Flush()
-	r.Rule("work items (corpus proof in {A1,A2 (16 public inputs), B1,B2,B3 (97)}, query-round prefix k in 1..28, engine flavour {native, plain(bit decomposition), commit, forced bit decomposition}, wrapper {VerifierCircuit, CircuitFixed (A instances), gnark test engine, bound-monitored run}); every item is a complete honest verification and must be ACCEPTed; monitored runs additionally require, at every witnessed reduction/multiply-add (grouped by static call site), that the largest operand an honest prover can produce fits the quotient width the circuit enforces.  Every item is non-trivial; distinct = item tuple.")
+	r.Rule("work items (corpus proof in {A1,A2 (16 public inputs), B1,B2,B3 (97)}, query-round prefix k in 1..28, engine flavour {native, plain(bit decomposition), commit, forced bit decomposition}, wrapper {VerifierCircuit, CircuitFixed (A instances), gnark test engine, bound-monitored run}, backend {evaluation engine; whole circuit compiled with gnark's real R1CS / SCS builder for the commit, forced-bit and native mechanisms and solved}); every item is a complete honest verification and must be ACCEPTed; monitored runs additionally require, at every witnessed reduction/multiply-add (grouped by static call site), that the largest operand an honest prover can produce fits the quotient width the circuit enforces.  Every item is non-trivial; distinct = item tuple.")
 	r.Assume("the five corpus proofs were produced by the real plonky2 prover (they are accepted by the independent reference verifier)", "prefix restriction of an honest proof is an honest proof of the adjusted configuration", "monitor completeness side assumes values passing the Goldilocks RangeCheck are < p (C06)")
 
 	var rp c02Item
@@ -101,11 +135,16 @@ func TestC02(t *testing.T) {
 
 	var items []c02Item
 	add := func(base string, k int, m eng.Mode, force bool, w string) {
-		items = append(items, c02Item{base, k, int(m), force, w})
+		items = append(items, c02Item{Base: base, K: k, Mode: int(m), Force: force, Wrapper: w})
+	}
+	addC := func(base string, k int, m eng.Mode, w, backend string) {
+		items = append(items, c02Item{Base: base, K: k, Mode: int(m), Wrapper: w, Backend: backend})
 	}
 	isA := func(b string) bool { return b[0] == 'A' }
 	if !rec.Thorough() {
 		// heavy items first so that they land on different shards
+		addC("A1", 1, eng.ModeCommit, "fixed", "r1cs") // the deployed configuration: Groth16 R1CS, commit checker, 4-input wrapper
+		addC("B1", 1, eng.ModeCommit, "plain", "scs")
 		add("A1", 28, eng.ModeCommit, false, "plain")
 		add("B1", 28, eng.ModeCommit, false, "plain")
 		add("A1", 28, eng.ModePlain, false, "plain")
@@ -128,6 +167,18 @@ func TestC02(t *testing.T) {
 		add("A1", 1, eng.ModePlain, false, "fixed")
 		add("B1", 2, eng.ModeCommit, false, "plain")
 	} else {
+		// compiled whole verifier: full proofs under the deployed configuration, prefixes under the others
+		addC("A1", 28, eng.ModeCommit, "fixed", "r1cs")
+		addC("B1", 28, eng.ModeCommit, "plain", "r1cs")
+		addC("A2", 28, eng.ModeCommit, "plain", "scs")
+		addC("A1", 1, eng.ModePlain, "plain", "r1cs") // bit decomposition: ~10x more constraints, one round only
+		addC("B2", 1, eng.ModeNative, "plain", "scs")
+		for i, b := range corp.Names {
+			addC(b, 3+i, eng.ModeCommit, "plain", []string{"scs", "r1cs"}[i%2])
+			if isA(b) {
+				addC(b, 2, eng.ModeCommit, "fixed", "scs")
+			}
+		}
 		for _, b := range corp.Names {
 			for _, k := range []int{28, 1, 2, 14, 27} {
 				for _, m := range []eng.Mode{eng.ModeCommit, eng.ModePlain} {
@@ -159,6 +210,9 @@ func TestC02(t *testing.T) {
 		}
 		ok, d, extra := c02Run(it)
 		class := fmt.Sprintf("%s/%s", it.Wrapper, eng.Mode(it.Mode))
+		if it.Backend != "" {
+			class = fmt.Sprintf("compiled-%s/%s/%s", it.Backend, it.Wrapper, eng.Mode(it.Mode))
+		}
 		if it.Force {
 			class += "+forced"
 		}
